@@ -223,7 +223,8 @@ class LoggedModel:
             if isinstance(v, float) and math.isnan(v):
                 continue
             c = 0.25 * (i + 1)
-            s += (float(v) - c) ** 2 * (1 + i)
+            d = float(v) - c
+            s += d * d * (1 + i)          # (a product overflows to inf; `**` would raise OverflowError)
         if self.kind == 'flat':
             logl = 0.0
         elif self.kind == 'needle':
